@@ -392,3 +392,14 @@ class _fake_re:
     def __exit__(self, *a):
         SB.re = self.old
         return False
+
+MANIFEST_ENTRY = {
+    'level_text': 'Bounded symbolic verification of the real Expecter/searcher/SpawnBase code: every step of an '
+                  'expect-family call (existing_data, new_data, eof, timeout, errored, buffer setter) is executed '
+                  'symbolically from an arbitrary state satisfying the representation invariant, with arbitrary '
+                  'pending text (<=5 chars, any code points), chunk, window size and searcher outcome; z3 discharges '
+                  'every path, so histories of any length are covered by induction; public-API obligations (two '
+                  'consecutive calls, readline/read/readlines) cross-check the composition on <=2 reads.',
+    'level_note': 'Bounds: text caps 3-5 characters, <=2 patterns, W in None/1..6. Trusted: CrossHair+z3, the BStr '
+                  'string encoding (differentially validated each run), CPython re contract (span within window).',
+}
